@@ -187,11 +187,17 @@ pub fn run_pipeline(
 
     let mut fds_capture_stdout = None;
     let mut fds_capture_stderr = None;
-    if capture {
+    // a single builtin runs inside the shell and hands its captured output
+    // back directly: it needs no capture pipes (they would never be closed).
+    if capture && !cl.is_single_and_builtin() {
         match pipe() {
             Ok(fds) => fds_capture_stdout = Some(fds),
             Err(e) => {
                 println_stderr!("cicada: pipeline2: {}", e);
+                for fds in pipes.iter() {
+                    libs::close(fds.0);
+                    libs::close(fds.1);
+                }
                 return (false, CommandResult::error());
             }
         }
@@ -199,6 +205,10 @@ pub fn run_pipeline(
             Ok(fds) => fds_capture_stderr = Some(fds),
             Err(e) => {
                 if let Some(fds) = fds_capture_stdout {
+                    libs::close(fds.0);
+                    libs::close(fds.1);
+                }
+                for fds in pipes.iter() {
                     libs::close(fds.0);
                     libs::close(fds.1);
                 }
@@ -225,6 +235,31 @@ pub fn run_pipeline(
 
         if child_id > 0 && !cl.background {
             fg_pids.push(child_id);
+        }
+
+        if child_id == 0 {
+            // this stage could not be started (no descriptors left, fork
+            // failed): give up the rest of the pipeline and release what
+            // is still open, so that running stages see EOF.
+            if i > 0 {
+                libs::close(pipes[i - 1].0);
+            }
+            for fds in pipes.iter().skip(i) {
+                libs::close(fds.0);
+                libs::close(fds.1);
+            }
+            if let Some(fds) = fds_capture_stdout {
+                libs::close(fds.0);
+                libs::close(fds.1);
+            }
+            if let Some(fds) = fds_capture_stderr {
+                libs::close(fds.0);
+                libs::close(fds.1);
+            }
+            if !fg_pids.is_empty() {
+                jobc::wait_fg_job(sh, pgid, &fg_pids);
+            }
+            return (term_given, CommandResult::error());
         }
     }
 
@@ -287,7 +322,8 @@ fn run_single_program(
             Ok(fds) => fds_stdin = Some(fds),
             Err(e) => {
                 println_stderr!("cicada: pipeline4: {}", e);
-                return 1;
+                *cmd_result = CommandResult::error();
+                return 0;
             }
         }
     }
@@ -384,6 +420,7 @@ fn run_single_program(
                             process::exit(1);
                         }
                         libs::dup2(fd, 2);
+                        libs::close(fd);
                     } else {
                         // note: capture output with redirections does not
                         // make much sense
@@ -396,6 +433,7 @@ fn run_single_program(
                             process::exit(1);
                         }
                         libs::dup2(fd, 1);
+                        libs::close(fd);
                     } else {
                         // note: capture output with redirections does not
                         // make much sense
@@ -416,6 +454,7 @@ fn run_single_program(
                                 libs::dup2(fd, 2);
                                 stderr_redirected = true;
                             }
+                            libs::close(fd);
                         }
                         Err(e) => {
                             println_stderr!("cicada: fork: {}", e);
@@ -604,6 +643,10 @@ fn run_single_program(
 
         Err(_) => {
             println_stderr!("Fork failed");
+            if let Some(fds) = fds_stdin {
+                libs::close(fds.0);
+                libs::close(fds.1);
+            }
             *cmd_result = CommandResult::error();
             0
         }
